@@ -32,6 +32,7 @@ def check_guard(ctx: Ctx, cname: str, member="interface_distance"):
     for fi in ci.methods.get(member, []):
         fv = view(m, fi)
         si = stmt_index(fv)
+        c13.check_cover(ctx, fi, rule="GUARD")
         for lp in c13.amp_loops(fi):
             site = f"{fi.qualname}:loop"
             bad = None
@@ -51,7 +52,8 @@ def check_guard(ctx: Ctx, cname: str, member="interface_distance"):
                     if not any(x is test for x in ast.walk(lp.node)):
                         continue  # guard outside the loop
                     cp = compare_parts(test)
-                    own = cp is not None and isinstance(cp[0], ast.Name) and cp[0].id in amps_in_term and isinstance(cp[2], ast.Constant) and cp[2].value == 0 \
+                    # a term that mixes several amplitudes (a·sin + b·cos) may not be skipped on account of one of them
+                    own = cp is not None and isinstance(cp[0], ast.Name) and amps_in_term == {cp[0].id} and isinstance(cp[2], ast.Constant) and cp[2].value == 0 \
                         and ((isinstance(cp[1], ast.NotEq) and pol) or (isinstance(cp[1], ast.Eq) and not pol))
                     if not own:
                         bad = (s, test)
